@@ -27,6 +27,33 @@ def expr_programs(tier, rng):
     return [p for p in progs if L.has_dynamic(p.body)]
 
 
+def literal_programs():
+    """literal spellings next to a run-time operand: the decoded value (astutil) must survive IR and C++ printing.
+    Reference values are written independently (Python literals)."""
+    R = lambda ty, src, v: ('rawlit', ty, src, v)
+    out = []
+    doubles = [('0.1', 0.1), ('1e3', 1e3), ('2.5e-3', 2.5e-3), ('123456789.125', 123456789.125), ('1e300', 1e300), ('4.9e-324', 4.9e-324),
+               ('1.7976931348623157e308', 1.7976931348623157e308), ('0.30000000000000004', 0.30000000000000004), ('1e21', 1e21), ('1e-7', 1e-7),
+               ('100.0', 100.0), ('.5', 0.5), ('5.', 5.0), ('0.0', 0.0), ('1e0', 1.0), ('3.141592653589793', 3.141592653589793), ('9007199254740993.0', 9007199254740992.0)]
+    for src, v in doubles:
+        out.append(D.Program('binding', 'double', ('bin', '+', G.P('a', 'dval'), R('double', src, v)), tag='literal-spelling'))
+        out.append(D.Program('binding', 'bool', ('bin', '<', G.P('a', 'dval'), R('double', src, v)), tag='literal-spelling'))
+    ints = [('0x10', 16), ('0XfF', 255), ('0b101', 5), ('0o17', 15), ('017', 15), ('08', 8), ('1_000', 1000), ('0xff_00', 65280), ('2147483647', 2147483647),
+            ('65535', 65535), ('0x7fffffff', 2147483647), ('0b1111_0000', 240), ('1000000', 1000000)]
+    for src, v in ints:
+        out.append(D.Program('binding', 'int', ('bin', '&', G.P('a', 'ival'), R('int', src, v)), tag='literal-spelling'))
+        out.append(D.Program('binding', 'uint', ('bin', '^', G.P('a', 'uval'), R('int', src, v)), tag='literal-spelling'))
+        out.append(D.Program('binding', 'bool', ('bin', '==', G.P('a', 'ival'), R('int', src, v)), tag='literal-spelling'))
+    strs = [('"a\\"b"', 'a"b'), ('"back\\\\slash"', 'back\\slash'), ('"tab\\tx"', 'tab\tx'), ('"nl\\nx"', 'nl\nx'), ('"\u00e9t\u00e9"', '\u00e9t\u00e9'),
+            ('"\\u00e9"', '\u00e9'), ('"\\x41\\x7e"', 'A~'), ('"\\u{1F600}"', '\U0001F600'), ("'it\\'s'", "it's"), ("'single'", 'single'), ('"\\0"', '\0'),
+            ('"\\v\\f\\b\\r"', '\x0b\x0c\x08\r'), ('"%1 %2"', '%1 %2'), ('"\u65e5\u672c"', '\u65e5\u672c'), ('""', '')]
+    for src, v in strs:
+        out.append(D.Program('binding', 'QString', ('bin', '+', G.P('a', 'sval'), R('QString', src, v)), tag='literal-spelling'))
+        out.append(D.Program('binding', 'bool', ('bin', '==', R('QString', src, v), G.P('a', 'sval')), tag='literal-spelling'))
+        out.append(D.Program('binding', 'QString', ('bin', '+', ('bin', '+', R('QString', src, v), R('QString', '"|"', '|')), G.P('a', 'sval')), tag='literal-spelling'))
+    return out
+
+
 def stmt_programs(tier, rng):
     progs = []
     for ss in G.switch_skeletons():
@@ -41,6 +68,10 @@ def stmt_programs(tier, rng):
             progs.append(D.Program('binding', 'int', ss, tag='switch-branching-labels'))
     for ss in G.nestings(3 if tier == 'thorough' else 2):
         progs.append(D.Program('binding', 'int', ss, tag='nesting'))
+    for ss in G.completion_value_programs(3 if tier == 'thorough' else 2):
+        progs.append(D.Program('binding', 'QString', ss, tag='completion-value'))
+    for ty, ss in G.dynamic_then_constant_tail():
+        progs.append(D.Program('binding', ty, ss, tag='dynamic-then-constant'))
     n = 1500 if tier == 'thorough' else 150
     for _ in range(n):
         ty = rng.choice(G.TYPES + ['enum:Mode', 'ptr:VNode'])
@@ -72,7 +103,7 @@ def run(res, args):
     tier = C.tier()
     rng = random.Random(C.seed())
     su = S.Suite(res, 'c01')
-    su.run(expr_programs(tier, rng), 'value', D.value_query, S.replay_value, batch=40)
+    su.run(expr_programs(tier, rng) + literal_programs(), 'value', D.value_query, S.replay_value, batch=40)
     su.run(stmt_programs(tier, rng), 'value', D.value_query, S.replay_value, batch=30)
     su.finish({'bounds': 'expressions: all depth-1 over the full leaf alphabet and all operator pairs (quick: every 4th / 8th), random depth<=5; '
                          'statements: all switch skeletons <=3 cases, all nestings of 8 branching constructs to depth %d, seeded random blocks; '
